@@ -88,7 +88,9 @@ def run(ctx):
         e_, n_, mm = corr.search_pden([a], [cf], maxlen=5)
         dmism += mm
     cfgs = [dict(ci=0, dot=0, gs=1, gl=0, mb=0), dict(ci=0, dot=1, gs=1, gl=0, mb=0), dict(ci=0, dot=0, gs=0, gl=0, mb=0),
-            dict(ci=0, dot=0, gs=1, gl=0, mb=1), dict(ci=1, dot=1, gs=1, gl=1, mb=0)]
+            dict(ci=0, dot=0, gs=1, gl=0, mb=1), dict(ci=1, dot=1, gs=1, gl=1, mb=0),
+            # GLOBSTARLONG alone implies the globstar, with MATCHBASE too
+            dict(ci=0, dot=0, gs=1, gl=1, mb=1, noG=1), dict(ci=0, dot=1, gs=1, gl=1, mb=0, noG=1)]
     ev, nt, mism = corr.search_pden(pps, cfgs, maxlen=5)
     # the same names with a final line feed: it belongs to the last segment like any other character
     ev3, nt3, mism3 = corr.search_pden(pps[:: 3 if ctx.quick else 1], [cfgs[0], cfgs[2], cfgs[3]], maxlen=4, nl_suffix=True)
@@ -105,6 +107,29 @@ def run(ctx):
     ctx.counted('globmatch vs Spec.pden', ev, nt, [{'ppat': p} for p in pps[:: max(1, len(pps) // 3)]][:3],
                 {'patterns': len(pps), 'configs': len(cfgs), 'attributed': {k: len(v) for k, v in hits.items()},
                  'unattributed': len(rest)})
+    # the same language through the other spellings of the matcher: compile().match/filter, globfilter, pathlib's
+    # PurePath.globmatch and full_match (whole path, segment by segment - not the right-anchored `match`)
+    from wcmatch import pathlib as PLm
+    nfe = 0
+    fe_pats = ['x', 'b/x', '*/x', '*', '**/x', 'b/**', '@(b|c)/x', '?', 'a/*/x', '*/*/x', 'a/**/x', '**', 'a/b/*', '*/b/?', '[ab]/*']
+    fe_names = ['a/b/x', 'b/x', 'x', 'a/x', 'a/b', 'c/x', 'a/b/c/x', 'a', 'b']
+    for fp_ in fe_pats:
+        for ff in (0, Gm.GLOBSTAR, Gm.EXTGLOB, Gm.GLOBSTAR | Gm.EXTGLOB | Gm.DOTGLOB, Gm.MATCHBASE, Gm.GLOBSTAR | Gm.MATCHBASE, Gm.IGNORECASE):
+            want = [Gm.globmatch(n_, fp_, flags=ff | Gm.FORCEUNIX) for n_ in fe_names]
+            cm_ = Gm.compile(fp_, flags=ff | Gm.FORCEUNIX)
+            alts = {'compile().match': [cm_.match(n_) for n_ in fe_names],
+                    'compile().filter': [n_ in cm_.filter(fe_names) for n_ in fe_names],
+                    'globfilter': [n_ in Gm.globfilter(fe_names, fp_, flags=ff | Gm.FORCEUNIX) for n_ in fe_names],
+                    'PurePosixPath.globmatch': [PLm.PurePosixPath(n_).globmatch(fp_, flags=ff) for n_ in fe_names],
+                    'PurePosixPath.full_match': [PLm.PurePosixPath(n_).full_match(fp_, flags=ff) for n_ in fe_names]}
+            for how, got in alts.items():
+                nfe += len(fe_names)
+                if got != want:
+                    k = next(i for i in range(len(want)) if got[i] != want[i])
+                    ctx.counterexample('%s of %r against %r (%s) = %r but glob.globmatch = %r' % (how, fe_names[k], fp_, corr.flag_names(ff), got[k], want[k]),
+                                       {'pattern': fp_, 'name': fe_names[k], 'flags': corr.flag_names(ff), 'front_end': how})
+                    break
+    ctx.counted('front ends of the path matcher agree', nfe, nfe // 3, [{'pattern': 'b/x', 'name': 'a/b/x'}])
     # NODIR: the exclusion regex accepts exactly directory-looking paths
     import itertools
     names = [''.join(t) for n in range(1, 6) for t in itertools.product('a./', repeat=n)]
